@@ -40,10 +40,11 @@ SameGraph(g, h) == SameFrom(g, 1, h, 1)
 
 \* the unfolding of node i of g, cut at depth d, as an ordered tree
 Tree(g, d, i) ==
-   LET T[n \in 0..d, j \in 1..Len(g)] ==
-          IF n = 0 THEN <<"cut", 0, << >> >>
-          ELSE <<g[j].k, g[j].a, [x \in 1..Len(g[j].c) |-> T[n - 1, g[j].c[x]]]>>
-   IN T[d, i]
+   LET T[n \in 0..d] ==          \* T[n][j] = unfolding of node j cut at depth n
+          IF n = 0 THEN [j \in 1..Len(g) |-> <<"cut", 0, << >> >>]
+          ELSE LET below == T[n - 1]
+               IN [j \in 1..Len(g) |-> <<g[j].k, g[j].a, [x \in 1..Len(g[j].c) |-> below[g[j].c[x]]]>>]
+   IN T[d][i]
 
 -----------------------------------------------------------------------------
 (* What one observation of two value instances A, B may report.
